@@ -13,7 +13,7 @@ import multiprocessing as mp
 import random
 import re
 
-from harness import common
+from harness import common, gen_targets
 from harness.common import Check, coq_bool
 
 META = {
@@ -516,6 +516,7 @@ def describe(config, history, obs, nfs) -> str:
 def run(ck: Check) -> None:
     common.assert_repo_imports()
     ck.coq_props()
+    gen_targets.run(ck)          # translator tie: Gallina regenerated from the source + coq/gen/EquivC13.v
     thorough = ck.tier == "thorough"
     ncases = 8000 if thorough else 500
     seeds = [(ck.rng.randrange(1 << 40), thorough) for _ in range(ncases)]
@@ -628,6 +629,7 @@ def run(ck: Check) -> None:
         "a stored matrix is identified with the latest successful routine result it equals bitwise (token), the all-zero matrix with the initial one",
         "the routine's outcome and the finiteness of the inspected factor matrix are recorded from the run (oracle in the loop), the fault script decides the rest",
     ]
+    ck.gen_equiv_verdict()
 
 
 def replay(obj) -> bool:
